@@ -76,7 +76,50 @@ pub fn gen_block_ret(r: &mut Rng, depth: usize, counter: &mut usize, budget: &mu
     out
 }
 
+const LIB_CALLS: [&str; 8] = ["array_contains ${arr} b", "array_contains ${arr} zz", "array_join ${arr} ,", "array_is_empty ${arr}", "concat a b", "base64 -decode YWJj", "join_path a b", "map_contains_value ${mp} v"];
+
+/// blocks whose bodies call library commands that are themselves written in duckscript (they share the block stacks
+/// with the caller under their own line context): the chain is shifted over line indexes 0..24 so that its else /
+/// elseif / end lines meet every line index such a command uses internally
+fn gen_libif(r: &mut Rng) -> Value {
+    json!({"kind": "libif", "pad": r.below(25), "cmd": r.pick(&LIB_CALLS), "shape": r.below(4), "in_loop": r.chance(1, 3)})
+}
+
+fn run_libif(input: &Value) -> Option<Value> {
+    let pad = input["pad"].as_u64()? as usize;
+    let cmd = input["cmd"].as_str()?;
+    let shape = input["shape"].as_u64()?;
+    let in_loop = input["in_loop"].as_bool()?;
+    let mut l: Vec<String> = vec!["t = set \"\"".to_string(), "arr = array a b c".to_string(), "mp = map".to_string(), "map_put ${mp} k v".to_string()];
+    for k in 0..pad { l.push(format!("pad{} = set {}", k % 3, k)); }
+    let mut want = String::new();
+    let rounds = if in_loop { 2 } else { 1 };
+    if in_loop { l.push("rounds = range 0 2".to_string()); l.push("for round in ${rounds}".to_string()); }
+    match shape {
+        0 => { l.extend(["if true", "r = LIB", "t = set \"${t}then;\"", "else", "t = set \"${t}else;\"", "end"].iter().map(|x| x.replace("LIB", cmd))); for _ in 0..rounds { want.push_str("then;"); } }
+        1 => { l.extend(["if false", "t = set \"${t}then;\"", "elseif true", "r = LIB", "t = set \"${t}elif;\"", "else", "t = set \"${t}else;\"", "end"].iter().map(|x| x.replace("LIB", cmd))); for _ in 0..rounds { want.push_str("elif;"); } }
+        2 => { l.extend(["if false", "t = set \"${t}then;\"", "else", "r = LIB", "t = set \"${t}else;\"", "end"].iter().map(|x| x.replace("LIB", cmd))); for _ in 0..rounds { want.push_str("else;"); } }
+        _ => { l.extend(["n = set 0", "while equals ${n} 0", "r = LIB", "n = set 1", "t = set \"${t}body;\"", "end"].iter().map(|x| x.replace("LIB", cmd))); for _ in 0..rounds { want.push_str("body;"); } }
+    }
+    if in_loop { l.push("end".to_string()); l.push("release ${rounds}".to_string()); }
+    l.push("t = set \"${t}after;\"".to_string());
+    want.push_str("after;");
+    let script = l.join("\n");
+    let mut context = Context::new();
+    duckscriptsdk::load(&mut context.commands).ok()?;
+    match runner::run_script(&script, context, None) {
+        Ok(ctx) => {
+            let got = ctx.variables.get("t").cloned().unwrap_or_default();
+            if got != want { Some(json!({"script": script, "what": "branches run differ from the tree-walking reading (a library command written in duckscript is called inside the block)", "model": want, "real": got})) } else { None }
+        }
+        Err(e) => Some(json!({"script": script, "error": e.to_string()})),
+    }
+}
+
 pub fn gen(r: &mut Rng) -> Value {
+    if r.chance(1, 8) {
+        return gen_libif(r);
+    }
     let mut c = 0;
     let mut budget = 14;
     let prog = gen_block(r, 0, &mut c, &mut budget);
@@ -331,6 +374,9 @@ pub fn run(input: &Value) -> Option<Value> {
 }
 
 fn run_inner(input: &Value) -> Option<Value> {
+    if input["kind"].as_str() == Some("libif") {
+        return run_libif(input);
+    }
     let prog = input["prog"].as_array()?.clone();
     let mut lines = vec![];
     render(&prog, &mut lines);
